@@ -524,6 +524,10 @@ func (w *respWriter) Write(b []byte) (int, error) {
 	if !bodyAllowed(w.status) {
 		return 0, http.ErrBodyNotAllowed
 	}
+	if w.k.Plan.Race || w.k.Plan.SlowWrites {
+		// a ResponseWriter may block before it consumes p (slow peer): a pre-emption point
+		w.k.Yield(w.cn.call, "write")
+	}
 	if w.failAt >= 0 && w.body.Len()+len(b) > w.failAt {
 		n := w.failAt - w.body.Len()
 		if n < 0 {
